@@ -142,16 +142,28 @@ def find (bases : Nat → List Nat) (ext : Nat → Bool) (owns : Nat → Nat →
     Option Nat :=
   (classMro bases ext c).find? (fun b => owns b name)
 
-/-- `Inheritable.docsources()` of the member `name` of class `c` (as owner classes). -/
-def docsources (bases : Nat → List Nat) (ext : Nat → Bool) (owns : Nat → Nat → Bool)
+/-- `Inheritable.docsources()` before commit d869973: members of different classes are related
+by their spelling, class-private names (`__x`) included. -/
+def docsourcesOld (bases : Nat → List Nat) (ext : Nat → Bool) (owns : Nat → Nat → Bool)
     (c name : Nat) : List Nat :=
   c :: (classMro bases ext c false false).filter (fun b => owns b name)
 
+def getDocstringOld (bases : Nat → List Nat) (ext : Nat → Bool) (owns hasDoc : Nat → Nat → Bool)
+    (c name : Nat) : Option Nat :=
+  (docsourcesOld bases ext owns c name).find? (fun b => hasDoc b name)
+
+/-- `Inheritable.docsources()` of the member `name` of class `c` (as owner classes):
+`yield self; if not isinstance(self.parent, Class) or is_class_private(self.name): return; …`.
+`priv name` = `model.is_class_private(name)` (starts with two underscores, does not end with two). -/
+def docsources (bases : Nat → List Nat) (ext priv : Nat → Bool) (owns : Nat → Nat → Bool)
+    (c name : Nat) : List Nat :=
+  if priv name then [c] else docsourcesOld bases ext owns c name
+
 /-- `get_docstring(obj)`: the first doc source whose docstring is not `None`
 (`hasDoc owner name`); returns the source's owner. -/
-def getDocstring (bases : Nat → List Nat) (ext : Nat → Bool) (owns hasDoc : Nat → Nat → Bool)
+def getDocstring (bases : Nat → List Nat) (ext priv : Nat → Bool) (owns hasDoc : Nat → Nat → Bool)
     (c name : Nat) : Option Nat :=
-  (docsources bases ext owns c name).find? (fun b => hasDoc b name)
+  (docsources bases ext priv owns c name).find? (fun b => hasDoc b name)
 
 /-! ### consumers of the linearisation -/
 
@@ -205,9 +217,17 @@ def findDunderConstructor (bases : Nat → List Nat) (ext : Nat → Bool) (owns 
 
 /-- first loop of `pages.get_override_info(cls, member_name)`: the member it "overrides" —
 `for b in cls.mro(include_self=False): if member_name not in b.contents: continue; …; break`. -/
-def overrides (bases : Nat → List Nat) (ext : Nat → Bool) (owns : Nat → Nat → Bool) (c name : Nat) :
+def overridesOld (bases : Nat → List Nat) (ext : Nat → Bool) (owns : Nat → Nat → Bool) (c name : Nat) :
     Option Nat :=
   (classMro bases ext c false false).find? fun b => owns b name
+
+/-- the same since commit d869973: `if model.is_class_private(member_name): return` comes first
+(a mangled name overrides nothing and cannot be overridden) -/
+def overrides (bases : Nat → List Nat) (ext priv : Nat → Bool) (owns : Nat → Nat → Bool) (c name : Nat) :
+    Option Nat :=
+  if priv name then none else overridesOld bases ext owns c name
+
+-- second half of `get_override_info` ("overridden in"): `overriddenIn` below.
 
 /-- `Class.subclasses` as `defaultPostProcess` fills it: the classes are visited in `order`,
 `for b in cls.baseobjects: if b is not None: b.subclasses.append(cls)` (once per occurrence). -/
@@ -254,6 +274,11 @@ def overridingSubclasses (bases : Nat → List Nat) (order : List Nat) (owns : N
     (visible : Nat → Bool) (c name : Nat) : List Nat :=
   (overridingFuel bases order owns visible name (order.length + 1) c true []).1
 
+/-- second half of `pages.get_override_info`: the classes listed as "overridden in" -/
+def overriddenIn (bases : Nat → List Nat) (order : List Nat) (owns : Nat → Nat → Bool)
+    (visible : Nat → Bool) (priv : Nat → Bool) (c name : Nat) : List Nat :=
+  if priv name then [] else overridingSubclasses bases order owns visible c name
+
 /-- `util.nested_bases(cls)`: for every prefix of `mro()` the chain `tuple(reversed(_mro[:i+1]))`,
 given as (`baselist[0]`, `baselist[1:]`); `acc` is the reversed prefix walked so far. -/
 def chains : List Nat → List Nat → List (Nat × List Nat)
@@ -264,19 +289,21 @@ def nestedBases (m : List Nat) : List (Nat × List Nat) := chains [] m
 
 /-- `util.unmasked_attrs(baselist)`: members of `baselist[0]` that are visible and whose name is
 not among the contents of `baselist[1:]`; `contents b` = names in definition order. -/
-def unmaskedAttrs (contents : Nat → List Nat) (visible : Nat → Nat → Bool) (b : Nat) (rest : List Nat) :
-    List (Nat × Nat) :=
-  ((contents b).filter fun n => visible b n && !(rest.any fun r => (contents r).contains n)).map fun n => (b, n)
+def unmaskedAttrs (contents : Nat → List Nat) (visible : Nat → Nat → Bool) (priv : Nat → Bool) (b : Nat)
+    (rest : List Nat) : List (Nat × Nat) :=
+  ((contents b).filter fun n =>
+      visible b n && !(rest.any fun r => (contents r).contains n && !priv n)).map fun n => (b, n)
+  -- `maybe_masking` leaves class-private names out (`if not model.is_class_private(o.name)`, d869973)
 
 /-- `util.class_members(cls)` over `m = cls.mro()` -/
-def classMembers (contents : Nat → List Nat) (visible : Nat → Nat → Bool) (m : List Nat) :
+def classMembers (contents : Nat → List Nat) (visible : Nat → Nat → Bool) (priv : Nat → Bool) (m : List Nat) :
     List ((Nat × List Nat) × List (Nat × Nat)) :=
-  ((nestedBases m).map fun p => (p, unmaskedAttrs contents visible p.1 p.2)).filter fun q => !q.2.isEmpty
+  ((nestedBases m).map fun p => (p, unmaskedAttrs contents visible priv p.1 p.2)).filter fun q => !q.2.isEmpty
 
 /-- `util.inherited_members(cls)`: `len(inherited_via) > 1` -/
-def inheritedMembers (contents : Nat → List Nat) (visible : Nat → Nat → Bool) (m : List Nat) :
+def inheritedMembers (contents : Nat → List Nat) (visible : Nat → Nat → Bool) (priv : Nat → Bool) (m : List Nat) :
     List (Nat × Nat) :=
-  ((classMembers contents visible m).filter fun q => q.1.2.length + 1 > 1).flatMap (·.2)
+  ((classMembers contents visible priv m).filter fun q => q.1.2.length + 1 > 1).flatMap (·.2)
 
 /-! ### `compute_mro.init_finalbaseobjects`: the second pass of base resolution
 
